@@ -30,8 +30,12 @@ ApplyOutputs(w, ix, t, num, ti, o, S) ==
     ELSE LET ks == KeysOfOutput(w, t, o, S) IN
          ApplyOutputs(w,
              IF ks = {} THEN ix
-             ELSE [ix EXCEPT !.cells = @ \cup {<<k, num, ti, o, t>> : k \in ks},
-                             !.hist  = @ \cup {<<k, num, ti, o, 1, t>> : k \in ks},
+             \* (the store is a key-value map: a put at an existing key -- possible only when an entry of an
+             \*  abandoned branch was left behind at the same position -- replaces the value)
+             ELSE [ix EXCEPT !.cells = {c \in @ : ~(c[1] \in ks /\ <<c[2], c[3], c[4]>> = <<num, ti, o>>)}
+                                         \cup {<<k, num, ti, o, t>> : k \in ks},
+                             !.hist  = {h \in @ : ~(h[1] \in ks /\ <<h[2], h[3], h[4], h[5]>> = <<num, ti, o, 1>>)}
+                                         \cup {<<k, num, ti, o, 1, t>> : k \in ks},
                              !.txs   = {e \in @ : e[1] # t} \cup {<<t, num, ti>>},
                              !.hit   = TRUE],
              t, num, ti, o + 1, S)
@@ -56,8 +60,9 @@ ApplyInputs(w, ix, t, num, ti, ii, S, local, db) ==
                    ELSE KeysOfOutput(w, pt, po, S)
          IN ApplyInputs(w,
              IF ks = {} THEN ix
-             ELSE [ix EXCEPT !.cells = @ \ {<<k, gen[1], gen[2], po, pt>> : k \in ks},
-                             !.hist  = @ \cup {<<k, num, ti, ii, 0, t>> : k \in ks},
+             ELSE [ix EXCEPT !.cells = {c \in @ : ~(c[1] \in ks /\ <<c[2], c[3], c[4]>> = <<gen[1], gen[2], po>>)},
+                             !.hist  = {h \in @ : ~(h[1] \in ks /\ <<h[2], h[3], h[4], h[5]>> = <<num, ti, ii, 0>>)}
+                                         \cup {<<k, num, ti, ii, 0, t>> : k \in ks},
                              !.txs   = {e \in @ : e[1] # t} \cup {<<t, num, ti>>},
                              !.hit   = TRUE],
              t, num, ti, ii + 1, S, local, db)
